@@ -218,6 +218,8 @@ def run(ck):
                      "real_networks": nreal, "real_networks_with_multi_row_weight": multi, "real_networks_with_a_zero_adversary_gradient_tensor": zeros, "real_networks_equalized_odds": eo})
     if disc == 0 or zero == 0 or multi == 0:
         raise MachineryError("vacuity: no discriminating / zero-gradient / multi-row case")
+    from harness import extras2
+    extras2.backend(ck)      # specification growth (refinement tier only): backend selection rules
     ck.assumptions += ["the TensorFlow engine cannot be executed here (tensorflow is not installed): only the PyTorch engine is covered",
                        "float32 parameters compared at 2e-5 (relative to max(1, |expected|))", "gA = 0 => g = gP is the reading of 'projection on a zero gradient'"]
 
